@@ -89,8 +89,11 @@ def addend(rng):
         return term_text(rng)
     if c < 0.85:
         return rng.choice(["4", "7", "0.5", "-3", "12", "1"])
-    if c < 0.93:
+    if c < 0.89:
         return f"({term_text(rng)} + {term_text(rng)})"
+    if c < 0.93:
+        # a function call among the addends (its own addends are not terms of the outer sum)
+        return rng.choice([f"sgn({rng.choice(VARS)})", f"sgn({term_text(rng)} + 1)", f"2sgn({rng.choice(VARS)})", f"sgn({term_text(rng)} + {term_text(rng)})"])
     return f"{rng.choice(['2', '3', 'x'])} * ({term_text(rng)} + {rng.choice(['1', 'y'])})"
 
 
